@@ -25,6 +25,9 @@ class VirtualToReal:
     self._import_references(previous)
     self._gfa._unregister_line(previous)
     self._gfa._register_line(self)
+    # the replaced line is no longer a line of the Gfa
+    previous._gfa = None
+    previous._refs = {}
     return None
 
   def _import_references(self, previous):
